@@ -36,10 +36,15 @@ def gen():
     order = "%s.%s,%s.%s" % mc.groups()
     out.append('(* connect_node calls conn.cost(%s) *)\n' % order)
     out.append('Definition connect_call : string := "%s".\n' % order)
-    mcmp = re.search(r"if\s+new_cost\s*(<=|<)\s*min_cost", cn)
+    # `new_cost < min_cost`, or the same comparison written from the other side (`min_cost > new_cost`)
+    mcmp = re.search(r"if\s+new_cost\s*(<=|<)\s*min_cost\b", cn)
+    cmp_op = mcmp.group(1) if mcmp else None
     if not mcmp:
+        mrev = re.search(r"if\s+min_cost\s*(>=|>)\s*new_cost\b", cn)
+        cmp_op = {">": "<", ">=": "<="}[mrev.group(1)] if mrev else None
+    if cmp_op is None:
         raise F.FactError("connect_node: comparison new_cost < min_cost not recognised")
-    out.append('Definition connect_cmp : string := "%s".\n' % mcmp.group(1))
+    out.append('Definition connect_cmp : string := "%s".\n' % cmp_op)
     if not re.search(r"let\s+new_cost\s*=\s*l_node\.total_cost\(\)\s*\+\s*connect_cost\s*\+\s*node_cost\s*;", cn):
         raise F.FactError("connect_node: new_cost is no longer total + connect_cost + node_cost")
     if not re.search(r"if\s+!l_node\.is_connected_to_bos\(\)\s*\{\s*continue;", cn):
